@@ -415,3 +415,25 @@ Proof.
   destruct (fwd RR (ct2 (cos theta) (sin theta)) (r_init (cos theta) (sin theta) odd) (map dblcs (csr r0 :: map csr rt))) as [[x y] z].
   exists x, y, z. unfold Ux_at. rewrite E0, E1. exact HS.
 Qed.
+
+(* the x-basis read-out of a symmetric SU(2) element: <+|S(x,y,z)|+> = x + i z, <0|S|0> = x + i y — together the two read-outs give
+   all three real parameters, i.e. all four matrix entries *)
+Lemma meas_x_symS x y z : meas_x CR hC (symS (x, y, z)) = (x, z).
+Proof.
+  assert (Hh : / sqrt 2 * / sqrt 2 = / 2).
+  { rewrite <- Rinv_mult. rewrite sqrt_sqrt by lra. reflexivity. }
+  unfold meas_x, symS, hC. cbn. cparts.
+  - transitivity ((/ sqrt 2 * / sqrt 2) * (2 * x)); [ring | rewrite Hh; field].
+  - transitivity ((/ sqrt 2 * / sqrt 2) * (2 * z)); [ring | rewrite Hh; field].
+Qed.
+Lemma m00_symS x y z : m00 (symS (x, y, z)) = (x, y).
+Proof. reflexivity. Qed.
+
+Theorem sym_unitary_readouts odd r0 rt phi0 rest theta :
+  sym_full_q odd (r0 :: rt) = Some (phi0 :: rest) ->
+  exists x y z : R, Ux_at phi0 rest theta = symS (x, y, z) /\
+    m00 (Ux_at phi0 rest theta) = (x, y) /\ resp_x phi0 rest theta = (x, z).
+Proof.
+  intros H. destruct (sym_unitary_form odd r0 rt phi0 rest theta H) as (x & y & z & E).
+  exists x, y, z. unfold resp_x. rewrite E. repeat split. apply meas_x_symS.
+Qed.
